@@ -6,6 +6,8 @@ sys.path.insert(0, VERIF)
 
 PROPS = {
     "C01": "c01_sequence",
+    "C02": "c02_times",
+    "C03": "c03_operators",
 }
 
 
